@@ -1224,8 +1224,6 @@ def run(ck):
 def replay(ck, path):
     r = json.loads(Path(path).read_text())["replay"]
     ck.evaluations = 1
-    ck.nontriv(1)
-    ck.nontriv(2)
     if "scenario" in r:
         out, err, code = run_thr(thr_harness(), r["scenario"])
         print("\n".join(out))
